@@ -56,7 +56,9 @@ KindOf(c, i) == IF \E k \in DOMAIN c.tam : c.tam[k].i = i
 ShareKind(c, i) == IF KindOf(c, i) = 0 THEN "Good" ELSE c.tam[KindOf(c, i)].kind
 
 Delta(kind) == CASE kind = "Plus" -> 1 [] kind = "Minus" -> -1 [] OTHER -> 0
-Junk(kind) == kind \in {"WrongKey", "WrongNonce", "WrongMsg"}
+Junk(kind) == kind \in {"WrongKey", "WrongNonce"}     \* never part of a valid signature
+\* A share made for the other message is a genuine share of THAT message: if every masked share is of
+\* this kind the aggregate is a valid signature of the other message (and of nothing else).
 
 (* ----------------------------- signing side ----------------------------- *)
 \* CosiAggregateCommitment: non-empty map, every index below 64 (all modelled indices are)
@@ -116,7 +118,8 @@ SigValid(c) ==
     /\ \A i \in c.cm : ~Junk(ShareKind(c, i))
     /\ SumDelta(c, c.cm) = 0                                \* deviations cancel
     /\ { vk[i + 1] : i \in m } = c.cm                       \* same aggregate key (plain sum: order-free)
-    /\ c.vmsg = "same"
+    /\ LET wm == { i \in c.cm : ShareKind(c, i) = "WrongMsg" }   \* every share made for the verified message
+       IN  IF c.vmsg = "same" THEN wm = {} ELSE wm = c.cm
 
 FullVerifyOK(c) ==
     LET m == FinalMask(c) IN
@@ -154,5 +157,6 @@ DesignInv(c) ==
     /\ (Honest(c) /\ c.thr > 0 /\ c.thr <= Cardinality(c.cm)) => FullVerifyOK(c)
     /\ (FullVerifyOK(c) /\ c.form.op \in {"drop", "dup"}) => FALSE         \* repeated / missing signer
     /\ (FullVerifyOK(c) /\ c.form.op = "flip") => FALSE                    \* mask changed after signing
-    /\ (FullVerifyOK(c) /\ c.vmsg # "same") => FALSE
+    /\ (FullVerifyOK(c) /\ c.vmsg # "same") => \A i \in c.cm : ShareKind(c, i) = "WrongMsg"
+    /\ (FullVerifyOK(c) /\ c.vmsg = "same") => \A i \in c.cm : ShareKind(c, i) \in {"Good", "Plus", "Minus"}
 =============================================================================
